@@ -435,10 +435,42 @@ func checkC07(c *Ctx) {
 					bad = "while learning, a message is sent although the deflection was not shown to be beyond half travel (value < -0.5 or > 0.5)"
 				}
 			}
-			if bad == "" && (lastValIdx < 0 || lastValIdx > gateIdx) {
-				bad = "the learning gate is evaluated before the last-value bookkeeping (suppressed positions would be replayed)"
-			}
 			note(k, bad)
+		}
+		// R7.9 a position counts as sent only when it was passed on: a path on which CC learning is held and nothing is
+		// emitted (the gate swallowed the event) must not record the position in lastAnalogValue - otherwise the next report
+		// of the same shaped position (the resting stick, after learning was released) is suppressed as a repetition and the
+		// receiver keeps the last transmitted value
+		{
+			learning := false
+			for _, a := range p.Atoms {
+				cnd, taken := a.Cond, a.Taken
+				for cnd.Op == "unop" {
+					cnd, taken = cnd.Args[0], !taken
+				}
+				if dv.isFieldLoad(cnd, "ccLearning") && taken {
+					learning = true
+				}
+			}
+			if learning {
+				sel, negs := mappingTypeOf(p)
+				excluded := map[string]bool{}
+				for _, n := range negs {
+					excluded[n] = true
+				}
+				keyType, _ := c.P.constString(pkgConfig, "AnalogKeySim")
+				actType, _ := c.P.constString(pkgConfig, "AnalogActionSim")
+				pbType, _ := c.P.constString(pkgConfig, "AnalogPitchBend")
+				emulation := sel == keyType || sel == actType
+				noCase := sel == "" && excluded[ccType] && excluded[pbType] && excluded[keyType] && excluded[actType]
+				if !emulation && !noCase && len(sends) == 0 {
+					bad := ""
+					if lastValIdx >= 0 {
+						bad = "while CC learning is held an axis position that is not transmitted is still recorded in lastAnalogValue: after learning is released the resting stick's next report (same shaped value) is dropped as a repetition and the receiver keeps the stale controller value"
+					}
+					note("device.handleABSEvent/swallowed-position-not-recorded", bad)
+				}
+			}
 		}
 		sel, _ := mappingTypeOf(p)
 		if sel != ccType {
@@ -564,12 +596,16 @@ func checkC07(c *Ctx) {
 		if strings.Contains(k, "learning-gate") {
 			rule = "R7.4"
 		}
+		if strings.Contains(k, "swallowed-position-not-recorded") {
+			rule = "R7.9"
+		}
 		if agg[k].bad != "" {
 			c.Bad(rule, k, pos, agg[k].bad)
 		} else {
 			c.OK(rule, k, pos, fmt.Sprintf("%d path(s) match the template", agg[k].n))
 		}
 	}
+	c.MinCount("R7.9", 1)
 	// R7.5 writers of the flags
 	var ws []string
 	for _, s := range c.P.writersOfField(dv.fields["ccZeroed"]) {
@@ -589,7 +625,7 @@ func checkC07(c *Ctx) {
 	c.MinCount("R7.1", 5)
 	c.MinCount("R7.4", 1)
 	c.MinCount("R7.5", 2)
-	c.DecidedClause("each of the four side branches (signed / centred-unsigned x negative / positive) sends the active controller with the deflection magnitude on its own channel, explicitly sends 0 to the opposite controller on the opposite channel unless it is already flagged zero, flags it, and un-flags the active one — on every path; side selection compares the shaped value with 0 resp. 0.5; the learning gate precedes every send and lets only |value| > 0.5 through, after the last-value bookkeeping; the flags have no other writer")
+	c.DecidedClause("each of the four side branches (signed / centred-unsigned x negative / positive) sends the active controller with the deflection magnitude on its own channel, explicitly sends 0 to the opposite controller on the opposite channel unless it is already flagged zero, flags it, and un-flags the active one — on every path; side selection compares the shaped value with 0 resp. 0.5; the learning gate precedes every send and lets only |value| > 0.5 through; a position the gate swallows is not recorded as sent; the flags have no other writer")
 	c.UndecidedClause("numeric values (C06); controllers with the same number on different channels share one flag (outside the stated quantifier)")
 	_ = ssa.Function{}
 }
